@@ -161,6 +161,13 @@ class Peer:
                 self._send(ok[:k])
             elif letter == 'U':
                 self._send(ok); self._later(T / 8, ok)
+            elif letter == 'k':
+                # a well-formed answer to ANOTHER request (one register more, the previous transaction id) immediately followed by the answer to
+                # this one, in ONE segment / datagram: e.g. a late answer to an earlier, timed-out request coalesced with the current one
+                other = dict(req)
+                if req['kind'] != 'aa55' and req.get('fn') == 3: other['val'] = min(125, req['val'] + 1)
+                if req['kind'] == 'tcp': other['tx'] = (req['tx'] - 1) & 0xFFFF or 0xFFFE
+                self._send(F.valid_response(other, s.payload_fn) + ok)
             elif letter == 'g':
                 self._send(garbage); self._send(ok)
             elif letter == 'd':
